@@ -1366,6 +1366,8 @@ def field_term(base, name):
 
 
 def index_term(base, i):
+    if T.is_app(base, 'eff') and base[2] and T.is_app(base[2][0], 'comp'):
+        return index_term(base[2][0], i)        # element of a collection built by an effectful pipeline: the element itself
     if T.is_app(base, 'upd') and base[2][1] == i:
         return base[2][2]
     if T.is_app(base, 'comp'):
